@@ -51,17 +51,36 @@ def run(pids=None, jobs=4):
                         shutil.copy(sp, os.path.join(d, "a2lfile", sub))
             r = subprocess.run([sys.executable, "-m", "vf.check", m["property"]], cwd=ROOT, env=env,
                                capture_output=True, text=True)
-            return (m, {0: "survived", 1: "killed", 2: "undecided"}.get(r.returncode, "rc%d" % r.returncode), r.stdout[-600:])
+            st = {0: "survived", 1: "killed", 2: "undecided"}.get(r.returncode, "rc%d" % r.returncode)
+            if st == "undecided" and not m.get("_with_driver") and not os.environ.get("VF_MUTANTS_NO_DRIVER_RETRY"):
+                # the contracts alone leave it undecided (lost anchor / proof step lost / ...): the complete check (with the bounded
+                # driver, as registered in MANIFEST.json) has the last word
+                for extra in ("Cargo.toml", "Cargo.lock"):
+                    shutil.copy(os.path.join(REPO, extra), os.path.join(d, extra))
+                shutil.copytree(os.path.join(REPO, "a2lmacros"), os.path.join(d, "a2lmacros"), ignore=shutil.ignore_patterns("target"))
+                for sub in ("Cargo.toml", "tests", "benches", "examples", "build.rs"):
+                    sp = os.path.join(REPO, "a2lfile", sub)
+                    if os.path.isdir(sp):
+                        shutil.copytree(sp, os.path.join(d, "a2lfile", sub))
+                    elif os.path.exists(sp):
+                        shutil.copy(sp, os.path.join(d, "a2lfile", sub))
+                env2 = dict(env)
+                env2.pop("VF_NO_DRIVER", None)
+                r2 = subprocess.run([sys.executable, "-m", "vf.check", m["property"]], cwd=ROOT, env=env2, capture_output=True, text=True)
+                if r2.returncode == 1:
+                    return (m, "killed", "(contracts alone: undecided; killed by the complete check with the driver)")
+                return (m, "undecided", r.stdout[-400:] + "\n--- with driver: exit %d" % r2.returncode)
+            return (m, st, r.stdout[-600:])
         finally:
             shutil.rmtree(d, ignore_errors=True)
 
     out = []
     with cf.ThreadPoolExecutor(max_workers=jobs) as ex:
         for m, st, log in ex.map(one, muts):
-            print("%-9s %s %s" % (st, m["property"], m["name"]))
+            print("%-9s %s %s%s" % (st, m["property"], m["name"], "  [by driver]" if log.startswith("(contracts alone") else ""))
             if st != "killed":
                 print("    " + log.replace("\n", "\n    "))
-            out.append({"name": m["name"], "property": m["property"], "result": st})
+            out.append({"name": m["name"], "property": m["property"], "result": st, "by": "driver" if log.startswith("(contracts alone") else "contracts"})
     return out
 
 
